@@ -41,6 +41,38 @@ class OffsetTarget:
         return getattr(self.inner, name)
 
 
+class InjectedInterrupt(KeyboardInterrupt):
+    """What the user's Ctrl-C (or a posterior that fails once) looks like to the library."""
+
+
+class Interruptible:
+    """Fault injection at the user's posterior: after arm(k) the k-th following evaluation raises InjectedInterrupt (once)."""
+
+    def __init__(self, inner):
+        self.inner = inner
+        self.countdown = 0
+        self.fired = 0
+
+    def arm(self, k):
+        self.countdown = int(k)
+
+    def disarm(self):
+        self.countdown = 0
+
+    def __call__(self, t):
+        if self.countdown > 0:
+            self.countdown -= 1
+            if self.countdown == 0:
+                self.fired += 1
+                raise InjectedInterrupt("injected at the posterior")
+        return self.inner(t)
+
+    def __getattr__(self, name):
+        if name in ("inner", "countdown", "fired"):
+            raise AttributeError(name)
+        return getattr(self.inner, name)
+
+
 class TerraceTarget:
     """A log-density that takes few distinct values: exactly 0.0 on a table-top around the centre, then steps of -h per ring
     (thresholded / top-hat / discrete-valued likelihoods).  Exact ties between different points and log-densities that are
